@@ -362,7 +362,12 @@ def run(ctx):
         c20_sched = None
     if c20_sched is not None:
         sched = c20_sched.run_part(ctx)
+    from . import c20_reg
+
+    reg = c20_reg.run_part(ctx)
+    ctx.log(f"registration part: {reg['cases']} pipeline cases over shapes {reg['shapes']}")
     ctx.coverage.update(
+        registration_part=reg,
         states=r["states"] + (sched["states"] if sched else 0),
         transitions=r["transitions"] + (sched["transitions"] if sched else 0),
         traces_validated_against_impl=r["transitions"] + (sched["executions"] if sched else 0),
@@ -380,6 +385,10 @@ def run(ctx):
 
 
 def replay(rec):
+    if rec["case"].get("part") == "registration":
+        from . import c20_reg
+
+        return c20_reg.replay(rec)
     h = Harness()
     h.reset()
     hist = rec["case"]["history"]
